@@ -38,7 +38,7 @@ def run(ctx):
                  ("C06-R5", "storage members hand out their own mask and storage"), ("C06-R6", "arity tables (observation)")]:
         ctx.rule(r, t)
     for cfg in configs(ctx.tier):
-        facts = ctx.facts(cfg)
+        facts = ctx.xfacts(cfg)
         r1(ctx, facts)
         r2(ctx, facts)
         r3(ctx, facts)
@@ -164,7 +164,7 @@ def r3(ctx, facts):
 def r4(ctx, facts):
     # iterators: closures that call J::get must pass their own parameter (the item of the mask iterator) and the captured values
     n = 0
-    for b in facts.bodies:
+    for b in facts.all_bodies:
         if b.kind != "Closure":
             continue
         par = b.path.rsplit("::{closure", 1)[0]
@@ -286,30 +286,29 @@ def r5(ctx, facts):
             if not o:
                 continue
             n += 1
-            ok = False
-            why = "open() does not return a (mask, value) tuple"
-            for d in o.defs().get(0, []):
-                if d[0] == "call" and d[4]["callee"].get("name") == "open_mut" and \
-                        any(r[0] == "param" and r[1] == 1 and r[2][:1] == ("data",) for r in o.roots(o.arg_origin(d[1], 0))):
-                    ok, why = True, ""    # (mask, storage) of the same MaskedStorage by construction of open_mut
-                if d[0] == "stmt" and d[4]["k"] == "aggregate" and d[4].get("tuple") and len(d[4]["ops"]) == 2:
-                    mo, vo = o.operand_origin(d[4]["ops"][0]), o.operand_origin(d[4]["ops"][1])
-                    md, vd = o.deps(mo), o.deps(vo)
-                    mroots = {r for r in o.roots(mo) if r[0] == "param"}
-                    vroots = {r for r in o.roots(vo) if r[0] == "param"}
-                    mask_named = any(x[0] in ("param", "call") and x[-1] and x[-1][-1] == "mask" for x in md | {o.canon(mo)}) or \
-                        any(x[0] == "call" and o.term(x[1])["callee"].get("name") in ("open_mut",) for x in md)
-                    ok = bool(mroots) and {r[:2] for r in mroots} == {r[:2] for r in vroots} and mask_named
-                    why = "" if ok else "mask roots %s, value roots %s, mask field/open_mut: %s" % (sorted(map(repr, mroots)), sorted(map(repr, vroots)), mask_named)
+            ms, vs = o.ret_origins(0), o.ret_origins(1)
+            ok = bool(ms) and len(ms) == len(vs)
+            why = "" if ok else "open() does not return a (mask, value) tuple"
+            for mo, vo in zip(ms, vs):
+                mc = o.call_of(mo)
+                if mc and mc[1].get("name") == "open_mut" and mc[2] == ("0",) and vo == ("call", mc[0], ("1",)) and \
+                        any(r[0] == "param" and r[1] == 1 and r[2][:1] == ("data",) for r in o.roots(o.arg_origin(mc[0], 0))):
+                    continue    # (mask, storage) of the same MaskedStorage by construction of open_mut (checked below)
+                md = o.deps(mo)
+                mroots = {r for r in o.roots(mo) if r[0] == "param"}
+                vroots = {r for r in o.roots(vo) if r[0] == "param"}
+                mask_named = any(x[0] in ("param", "call") and x[-1] and x[-1][-1] == "mask" for x in md | {o.canon(mo)}) or \
+                    any(x[0] == "call" and o.term(x[1])["callee"].get("name") in ("open_mut",) for x in md)
+                if not (bool(mroots) and {r[:2] for r in mroots} == {r[:2] for r in vroots} and mask_named):
+                    ok = False
+                    why = "mask roots %s, value roots %s, mask field/open_mut: %s" % (sorted(map(repr, mroots)), sorted(map(repr, vroots)), mask_named)
             ctx.ob("C06-R5", "%s %s::open returns its own mask with its own storage" % (st, tname), ok, o.loc(), why)
     ctx.floor("C06-R5", "storage-like open() impls", n, 8)
     om = [b for b in facts.methods_named("storage::MaskedStorage", "open_mut")]
     ctx.anchor("C06-R5", "MaskedStorage::open_mut", om)
     for b in om:
-        ok = False
-        for d in b.defs().get(0, []):
-            if d[0] == "stmt" and d[4]["k"] == "aggregate" and d[4].get("tuple") and len(d[4]["ops"]) == 2:
-                ok = b.operand_origin(d[4]["ops"][0]) == ("param", 1, ("mask",)) and b.operand_origin(d[4]["ops"][1]) == ("param", 1, ("inner",))
+        ms, vs = b.ret_origins(0), b.ret_origins(1)
+        ok = bool(ms) and all(m == ("param", 1, ("mask",)) for m in ms) and all(v == ("param", 1, ("inner",)) for v in vs)
         ctx.ob("C06-R5", "MaskedStorage::open_mut returns (self.mask, self.inner)", ok, b.loc(), "" if ok else "open_mut does not pair the storage's mask with its inner storage")
     for st, m in join_impls(facts).items():
         if base_ty(st) != "storage::AntiStorage":
